@@ -14,7 +14,7 @@ LEVEL = "exploration"
 PLAN = {"quick": {"cases": 8000, "shards": 16, "timeout": 900},
         "thorough": {"cases": 250000, "shards": 32, "timeout": 7200}}
 RULE = ("random / rule-shaped trees over all 15 constructors with every parameter spelling (n int / integral float, base omitted / e / int / "
-        "float incl. < 1 and 1, constants int / float incl. negative, tiny, huge, many-digit), unicode and digit-first variable names; Points "
+        "float incl. < 1 and 1, constants int / float incl. negative, tiny, huge, many-digit, ints beyond 2**53 that no double represents), unicode and digit-first variable names; Points "
         "whose names are identifiers and not keywords; Derivative / Partial / Differential / LocatedDifferential built on them. For every "
         "object: eval(repr(o)) and eval(str(o)) in a namespace of exactly the public names must be == o (library ==) and structurally "
         "equal (reflected spec); derivative objects must print as their constructor applied to the printed expression; across each shard "
@@ -23,7 +23,9 @@ RULE = ("random / rule-shaped trees over all 15 constructors with every paramete
 ASSUMPTIONS = ["eval namespace = smoothmath.__all__ + smoothmath.expression.__all__ only (no builtins)", "finite numeric content only"]
 
 NAMES = ["x", "y", "z", "theta", "x1", "_u", "X", "a_b", "été", "π", "变量", "1x", "9", "x٣", "__", "Δt"]
-CONST_EXTRA = [1e-7, 1e22, 123456789.123456789, -0.0, 1 / 3, 1e16, 2 ** 53 + 2, -1e-300, 1e300, 0.1 + 0.2, 5e-324, 10 ** 20, -7]
+CONST_EXTRA = [1e-7, 1e22, 123456789.123456789, -0.0, 1 / 3, 1e16, 2 ** 53 + 2, -1e-300, 1e300, 0.1 + 0.2, 5e-324, 10 ** 20, -7,
+               # integers no double represents (printing through float formatting loses them)
+               2 ** 53 + 1, 10 ** 17 + 3, 2 ** 64 - 1, -(2 ** 53 + 1), 10 ** 22 + 1]
 _NS = None
 _TEXTS = {}
 
@@ -43,7 +45,7 @@ def namespace():
 
 
 def make_case(rng, tier):
-    cfg = G.Cfg(varnames=rng.sample(NAMES, 3), consts=G.CONSTS + rng.sample(CONST_EXTRA, 4), max_n=12, float_n=0.3,
+    cfg = G.Cfg(varnames=rng.sample(NAMES, 3), consts=G.CONSTS + rng.sample(CONST_EXTRA, 5), max_n=12, float_n=0.3,
                 bases=G.BASES + [1e-3, 1234.5, 0.9999999999999999, 1.0000000000000002], exp_base_one=0.1)
     r = rng.random()
     if r < 0.6:
@@ -141,7 +143,7 @@ def check_case(ctx, case):
             cands.append((f"Derivative({er})", lambda: sm.Derivative(S.build(s), compute_early=early)))
     idn = [n for n in names if n.isidentifier() and not keyword.iskeyword(n)]
     if len(idn) == len(names):
-        pd = {n: rng.choice([1, 2.5, -3, 0.1, 1e-7, 7.0, 1e20, 1e16, 1.5e300, 5e-324, -0.0, 10 ** 25, 3e40, 1e100, 123456789.123456789, -1e-300, 2.0]) for n in names}
+        pd = {n: rng.choice([1, 2.5, -3, 0.1, 1e-7, 7.0, 1e20, 1e16, 1.5e300, 5e-324, -0.0, 10 ** 25, 3e40, 1e100, 123456789.123456789, -1e-300, 2.0, 2 ** 53 + 1, 10 ** 17 + 3, -(2 ** 64 - 1)]) for n in names}
         if rng.random() < 0.3:
             pd["extra"] = 4
         from .. import refmodel as R
